@@ -116,6 +116,25 @@ Theorem C15_row_canonical : forall l s, wf_fts l = true -> fts2row l = ROk s -> 
 Proof. exact row_canonical. Qed.
 Print Assumptions C15_row_canonical.
 
+(* a feature with several locations is drawn over its whole range: start = minimum of the starts, stop = maximum of the
+   stops (nested locations, later start with earlier stop, any order, both strands) *)
+Theorem C15_range_spec : forall locs, locs <> [] ->
+  (forall x, In x locs -> range_start locs <= l_start x /\ l_stop x <= range_stop locs)
+  /\ (exists x, In x locs /\ l_start x = range_start locs) /\ (exists x, In x locs /\ l_stop x = range_stop locs).
+Proof. exact range_spec. Qed.
+Print Assumptions C15_range_spec.
+
+Theorem C15_range_perm : forall locs locs', Permutation.Permutation locs locs' ->
+  range_start locs = range_start locs' /\ range_stop locs = range_stop locs'.
+Proof. exact range_perm. Qed.
+Print Assumptions C15_range_perm.
+
+Theorem C15_multi_ft_range : forall name minus locs, locs <> [] ->
+  f_start (multi_ft name minus locs) = range_start locs /\ f_stop (multi_ft name minus locs) = range_stop locs
+  /\ f_name (multi_ft name minus locs) = name.
+Proof. exact multi_ft_range. Qed.
+Print Assumptions C15_multi_ft_range.
+
 (* row2fts (fts2row (row2fts r)) = row2fts r, and the features of a well-formed row are well-formed:
    complete enumeration of the 87 381 rows over {. | a b} of length <= 8 (21 835 of them well-formed) *)
 Theorem C15_row_fts_row_box : forall r, In r (strs_upto ROW_ALPHA ROW_BOX) -> wf_rowstr r = true ->
